@@ -251,8 +251,8 @@ func (e *env) runMessages(nrand int) {
 	}{
 		proto.MsgGetStatus:           {{"int", raw(uint(5))}, {"string", str(3)}, {"list123", list123}},
 		proto.MsgNewBlockID:          {{"int", raw(uint(5))}, {"31-bytes", str(31)}, {"33-bytes", str(33)}, {"list123", list123}, {"empty-list", raw([]uint{})}},
-		proto.MsgNewBlock:            {{"int", raw(uint(5))}, {"string", str(40)}, {"list123", list123}, {"empty-list", raw([]uint{})}, {"header-only", raw([]any{next.Header()})}, {"body-broken", rlp.RawValue(bodyBroken(next))}},
-		proto.MsgNewTx:               {{"list123", list123}, {"empty-string", raw([]byte{})}, {"unknown-type", str(40)}, {"empty-list", raw([]uint{})}},
+		proto.MsgNewBlock:            {{"int", raw(uint(5))}, {"string", str(40)}, {"list123", list123}, {"empty-list", raw([]uint{})}, {"header-only", raw([]any{next.Header()})}, {"body-broken", rlp.RawValue(bodyBroken(next, 0))}, {"body-empty-string-tx", rlp.RawValue(bodyBroken(next, 1))}, {"body-one-byte-typed-tx", rlp.RawValue(bodyBroken(next, 2))}},
+		proto.MsgNewTx:               {{"list123", list123}, {"empty-string", raw([]byte{})}, {"one-byte-typed", raw([]byte{0x51})}, {"unknown-type", str(40)}, {"empty-list", raw([]uint{})}},
 		proto.MsgGetBlockByID:        {{"int", raw(uint(5))}, {"31-bytes", str(31)}, {"33-bytes", str(33)}, {"list123", list123}},
 		proto.MsgGetBlockIDByNumber:  {{"5-byte-int", raw(uint64(1) << 32)}, {"leading-zero", rlp.RawValue{0x82, 0x00, 0x01}}, {"33-bytes", str(33)}, {"list123", list123}},
 		proto.MsgGetBlocksFromNumber: {{"5-byte-int", raw(uint64(1) << 32)}, {"leading-zero", rlp.RawValue{0x82, 0x00, 0x01}}, {"33-bytes", str(33)}, {"list123", list123}},
@@ -374,7 +374,8 @@ func (e *env) runMessages(nrand int) {
 		{"announce: other block returned", func(thor.Bytes32) []rlp.RawValue { return []rlp.RawValue{rawOf(e.trunk[6])} }, 0},
 		{"announce: garbage returned", func(thor.Bytes32) []rlp.RawValue { return []rlp.RawValue{raw("junk")} }, 0},
 		{"announce: two blocks returned", func(thor.Bytes32) []rlp.RawValue { return []rlp.RawValue{rawOf(e.trunk[5]), rawOf(e.trunk[5])} }, 0},
-		{"announce: body-broken block returned", func(thor.Bytes32) []rlp.RawValue { return []rlp.RawValue{bodyBroken(e.trunk[5])} }, 0},
+		{"announce: body-broken block returned", func(thor.Bytes32) []rlp.RawValue { return []rlp.RawValue{bodyBroken(e.trunk[5], 0)} }, 0},
+		{"announce: block with an empty-string tx returned", func(thor.Bytes32) []rlp.RawValue { return []rlp.RawValue{bodyBroken(e.trunk[5], 1)} }, 0},
 		{"announce: announced block returned", func(thor.Bytes32) []rlp.RawValue { return []rlp.RawValue{rawOf(e.trunk[5])} }, 1},
 	}
 	for _, a := range answers {
